@@ -676,7 +676,7 @@ pub struct ProbeCtx {
     pub in_loop: bool,
     /// lexically inside a closure
     pub in_closure: bool,
-    /// loops (kind, condition) that lexically precede the probe in an enclosing block of the same function
+    /// loops (kind, condition) that lexically precede the probe in an enclosing block
     pub loops_before: Vec<(LoopKind, Option<Cond>)>,
 }
 
@@ -996,7 +996,7 @@ impl<'a> Interp<'a> {
 
 /// runs a *normalized* program under one assignment of the opaque booleans
 pub fn interpret(p: &Prog, ids: &HashMap<usize, u32>, env: u8, loop_stats: &mut HashMap<usize, LoopStat>, site_types: &mut HashMap<usize, u8>) -> Run {
-    let mut it = Interp { env, ids, scopes: vec![], events: vec![], steps: 0, limit: 4000, loop_kinds: vec![], frames: vec![], loop_stats, site_types };
+    let mut it = Interp { env, ids, scopes: vec![], events: vec![], steps: 0, limit: 1500, loop_kinds: vec![], frames: vec![], loop_stats, site_types };
     for (i, l) in p.inits.iter().enumerate() {
         it.scopes.push((i as u8, Val { ty: l.ty(), truthy: l.truthy(), origin: Origin { in_loop: None, reassigned: false, copied: false, copied_from: None, site: 0 } }));
     }
@@ -1005,6 +1005,39 @@ pub fn interpret(p: &Prog, ids: &HashMap<usize, u32>, env: u8, loop_stats: &mut 
 }
 
 /// lexical context of every probe of a normalized program, keyed by probe id
+fn collect_loops(b: &[Stmt], out: &mut Vec<(LoopKind, Option<Cond>)>) {
+    for s in b {
+        match s {
+            Stmt::If(arms, els) => {
+                for (_, b) in arms {
+                    collect_loops(b, out);
+                }
+                if let Some(b) = els {
+                    collect_loops(b, out);
+                }
+            }
+            Stmt::Do(b) | Stmt::Closure(_, b) => collect_loops(b, out),
+            Stmt::While(c, _, b) => {
+                collect_loops(b, out);
+                out.push((LoopKind::While, Some(c.clone())));
+            }
+            Stmt::Repeat(b, c, _) => {
+                collect_loops(b, out);
+                out.push((LoopKind::Repeat, Some(c.clone())));
+            }
+            Stmt::ForNum(_, _, b) => {
+                collect_loops(b, out);
+                out.push((LoopKind::ForNum, None));
+            }
+            Stmt::ForIn(_, _, b) => {
+                collect_loops(b, out);
+                out.push((LoopKind::ForIn, None));
+            }
+            _ => {}
+        }
+    }
+}
+
 pub fn probe_contexts(p: &Prog, ids: &HashMap<usize, u32>) -> HashMap<u32, ProbeCtx> {
     fn walk(b: &[Stmt], ctx: &ProbeCtx, ids: &HashMap<usize, u32>, out: &mut HashMap<u32, ProbeCtx>) {
         let mut ctx = ctx.clone();
@@ -1027,13 +1060,24 @@ pub fn probe_contexts(p: &Prog, ids: &HashMap<usize, u32>) -> HashMap<u32, Probe
                         inner.guards.extend(neg.iter().cloned());
                         walk(b, &inner, ids, out);
                     }
+                    // loops nested in the branches also precede what follows the if
+                    for (_, b) in arms {
+                        collect_loops(b, &mut ctx.loops_before);
+                    }
+                    if let Some(b) = els {
+                        collect_loops(b, &mut ctx.loops_before);
+                    }
                 }
-                Stmt::Do(b) => walk(b, &ctx, ids, out),
+                Stmt::Do(b) => {
+                    walk(b, &ctx, ids, out);
+                    collect_loops(b, &mut ctx.loops_before);
+                }
                 Stmt::Closure(_, b) => {
+                    // called in place: what precedes the closure precedes its body
                     let mut inner = ctx.clone();
                     inner.in_closure = true;
-                    inner.loops_before.clear();
                     walk(b, &inner, ids, out);
+                    collect_loops(b, &mut ctx.loops_before);
                 }
                 Stmt::While(c, _, b) | Stmt::Repeat(b, c, _) => {
                     let kind = if matches!(s, Stmt::While(..)) { LoopKind::While } else { LoopKind::Repeat };
@@ -1124,7 +1168,7 @@ fn rhs() -> impl Strategy<Value = Rhs> {
 }
 
 fn bound() -> impl Strategy<Value = Bound> {
-    prop_oneof![2 => Just(Bound::Natural), 4 => (0u8..4).prop_map(Bound::BreakAfter), 2 => (0u8..4).prop_map(Bound::CondLimit)]
+    prop_oneof![1 => Just(Bound::Natural), 4 => (0u8..4).prop_map(Bound::BreakAfter), 3 => (0u8..4).prop_map(Bound::CondLimit)]
 }
 
 fn leaf_stmt(loops: bool) -> BoxedStrategy<Stmt> {
@@ -1156,8 +1200,15 @@ pub fn block(loops: bool, depth: u32, max_len: usize) -> BoxedStrategy<Vec<Stmt>
 
 fn loop_stmt_with(blk: impl Strategy<Value = Vec<Stmt>> + Clone + 'static) -> BoxedStrategy<Stmt> {
     prop_oneof![
-        4 => (loop_cond(), bound(), blk.clone()).prop_map(|(c, bd, b)| Stmt::While(c, bd, b)),
-        3 => (blk.clone(), loop_cond(), bound()).prop_map(|(b, c, bd)| Stmt::Repeat(b, c, bd)),
+        4 => (loop_cond(), bound(), blk.clone()).prop_map(|(c, bd, b)| {
+            // a loop whose condition reads no variable cannot end by itself
+            let bd = if bd == Bound::Natural && !cond_has_var(&c) { Bound::BreakAfter(1) } else { bd };
+            Stmt::While(c, bd, b)
+        }),
+        3 => (blk.clone(), loop_cond(), bound()).prop_map(|(b, c, bd)| {
+            let bd = if bd == Bound::Natural && !cond_has_var(&c) { Bound::CondLimit(2) } else { bd };
+            Stmt::Repeat(b, c, bd)
+        }),
         2 => (0u8..FORNUM_KINDS, 0u8..N_OPAQUE, blk.clone()).prop_map(|(k, op, b)| Stmt::ForNum(k, op, b)),
         2 => (0u8..FORIN_KINDS, 0u8..N_OPAQUE, blk).prop_map(|(k, op, b)| Stmt::ForIn(k, op, b)),
     ]
